@@ -67,6 +67,13 @@ def selectStrategy (c : Cfg) (k : EClass) : Option (SKey × SKind) :=
     | some kind => some (.default, kind)
     | none => none
 
+/-- Does the *normalised* strategy object expose `record_failure`/`record_success`?  A legacy
+    3-argument strategy is wrapped in a closure by `_normalize_strategy`, which hides them. -/
+def records (c : Cfg) (key : SKey) : Bool :=
+  c.stratRecords key && (match key with
+    | .default => c.stratDefault == some .ctx
+    | .cls k => c.stratFor k == some .ctx)
+
 /-- `if self.operation:` — the empty string is falsy. -/
 def opTag (c : Cfg) : Option String :=
   match c.operation with
@@ -112,6 +119,7 @@ structure World where
   rs : RState := {}
   as : AState := {}
   attempts : Nat := 0                   -- the `attempts` local of execute()
+  opCalls : Nat := 0                    -- invocations of the operation in this call (what `op` observes)
   timeline : List TimelineEv := []      -- newest first
   tlStart : Nat := 0
   budget : Budget.St := {}
